@@ -2,7 +2,7 @@
 # usage: try_seed2.sh <patch.diff> <Cxx> [Cyy ...] : evaluate a seeded change against its base (the pristine snapshot in /tmp/seed/PRISTINE):
 # prints the rule instances that are violated with the patch but not without it.
 p=$1; shift
-W=/tmp/seed/PRISTINE
+W=${SEEDBASE:-/tmp/seed/PRISTINE}
 cd $W && git checkout -q -- . && git clean -fdq -e Cargo.lock -e target
 for c in "$@"; do (cd /verif && ./check $c --no-evidence --repo $W 2>&1 | grep -E ": rule |KNOWN-FINDING" | sed -E 's/^[^ ]*: rule /rule /; s/KNOWN-FINDING: property=[^ ]* /rule /' | awk '{print $2" "$4" "$5}' | sort -u > /tmp/base_$c.txt); done
 cd $W && git apply "$p" || { echo "APPLY FAILED"; exit 2; }
@@ -11,4 +11,5 @@ for c in "$@"; do
   sed -E 's/^[^ ]*: rule /rule /; s/KNOWN-FINDING: property=[^ ]* /rule /' /tmp/patched_$c.raw | awk '{print $2" "$4" "$5}' | sort -u > /tmp/patched_$c.txt
   echo "== $c new rule instances violated with the patch:"; comm -13 /tmp/base_$c.txt /tmp/patched_$c.txt
 done
+cd $W && git checkout -q -- . && git clean -fdq -e Cargo.lock -e target
 cd $W && git checkout -q -- . && git clean -fdq -e Cargo.lock -e target
